@@ -335,3 +335,7 @@ def _h_negative_contents(c, ev):
 
 
 HPREDS = {"h_unsigned_ge_2p63": _h_unsigned_ge_2p63, "h_negative_contents": _h_negative_contents,"real_mantissa_leading_zero": _h_real_leading_zero, "real_subnormal": _h_real_subnormal}
+
+
+# ---- predicates on compiler scenarios (C09-C13): f(scenario, event) ----------------------------
+MPREDS = {}
